@@ -1,9 +1,13 @@
 CONSTANTS Keys = {"a", "b"}
-          NHol = 3
-          NWk = 2
+          NHol = 5
+          NWk = 4
+          NLo = 3
+          NHi = 3
+          ConAdjs = {"f", "p", "m"}
           Rich = TRUE
-          MaxObj = 6
-          Depth = 8
+          MaxObj = 8
+          Depth = 7
           KeepHist = TRUE
+          Fan = 4
 INIT Init
 NEXT NextGen
